@@ -20,6 +20,7 @@ pub mod cursor;
 pub mod pack;
 pub mod arith;
 pub mod coll;
+pub mod tags;
 
 // ------------------------------------------------------------------ PRNG (splitmix64)
 #[derive(Clone)]
